@@ -12,12 +12,14 @@ PROP = {
         "takeover_master, whose theorems apply)",
         "HashMap-order dependent allocation choices (replacement proxy, new chunks) are fed from the implementation "
         "and validated by the model's allowed-set check; every C06 theorem holds for every choice, allowed or not",
-        "invariants owned by other properties enter as explicit hypotheses: PosInv (stored entries sit at the "
-        "position their meta names, indices in range) for the existence of the view and for (d); TwinInv (every "
-        "stored entry has a twin of the opposite direction) for (d); EpochInv for 'newer than every epoch served "
-        "before'; ResInv (unique names/addresses, occupancy tags) for locating the failed proxy's chunk and for "
-        "'a node served by p' = 'a node on that chunk half'. C06_reachable_failover / C06_reachable_epochs take "
-        "the lifted forms (forall reachable s) as premises",
+        "C06_failover_run / C06_epochs_run have one premise left: every prefix of the history keeps every cluster at "
+        "<= SLOT_NUM = 16384 masters (PlanBound, needed by C01's planner theorems). The invariants are discharged "
+        "with the other properties' theorems: PosInv/TwinInv from Plan.cinv_run (C01, UmProofs/BrokerSlotsPlanJ), "
+        "EpochInv from Epoch.epochInv_reachable (C04), ResInv from resInv_reachable (C12); the per-store theorems "
+        "(C06_a..g, C06_failover_at, C06_epochs_at) keep them as explicit hypotheses and C06_reachable_* take the "
+        "lifted forms as premises",
+        "registered proxy tagged with a cluster (findProxy p = some pr, pr.cluster = some name) is the premise of "
+        "the in-cluster failover; the healthy-partner premise of the property text is not needed by any clause",
         "(a)-(d) are stated for the unlimited view clusterStoreToCluster cl and carried over to every "
         "migration_limit by C06_limited (limit_migration commutes with the entry map of takeover_master and keeps "
         "roles/addresses; no invariant needed); (c) holds for every cluster value",
@@ -70,6 +72,10 @@ CHECK = {
             "(f) generate_free_chunks / generate_new_free_proxy return only members of freeProxies = registered, in "
             "no cluster, not in failed_proxies, without failure report, and for every operation every proxy address "
             "in a chunk afterwards was in a same-named cluster before or was such a free proxy before; "
+            "(run) C06_failover_run / C06_epochs_run: for every operation list whose prefixes keep <= 16384 masters per "
+            "cluster and every registered, cluster-tagged proxy, the appended failover step satisfies (a), (b), (c), "
+            "(e) and the replacement clause, and takeover_master satisfies (d), with no further premise (invariants "
+            "discharged by C01 cinv_run, C04 epochInv_reachable, C12 resInv_reachable); "
             "(g) balance_masters changes only role positions, resets exactly the chunks none of whose proxies is "
             "failed or reported, and in the view every part keeps its ranges, held by the node the Normal position "
             "designates. Tie to the code: the model is replayed against the real MetaStore after every operation, "
